@@ -93,7 +93,8 @@ def run_c20x(case):
         doc = {"title": "t", "logsource": {"category": "c"}, "detection": {"sel": {"f|re|" + mods: "a.b"}, "condition": "sel"}}
         return list(cls().convert(SigmaCollection.from_dicts([doc])))
     names = [FIELD_NAMES[n - 1] for n in case["names"]]
-    if k in ("badcond", "filtermissing", "convnum", "validatorset", "unrefcond"):
+    if k in ("badcond", "filtermissing", "convnum", "validatorset", "unrefcond", "appliedids", "converr", "reflagerr", "dangling3", "attrerr",
+             "unknownvals", "tracking", "underq"):
         return run_errors(k, case, names)
     if k == "strict":
         pipe = ProcessingPipeline.from_dict({"name": "p", "priority": 1, "transformations": [
@@ -178,6 +179,67 @@ def run_errors(k, case, names):
             return ["no error"]
         except SigmaError as e:
             return [text(e)]
+    idn = [n.replace(".", "_") for n in names]
+    if k == "appliedids":
+        pipe = ProcessingPipeline.from_dict({"name": "p", "priority": 1, "transformations": [
+            {"type": "field_name_suffix", "suffix": "_" + idn[0]}, {"type": "field_name_prefix", "prefix": idn[1] + "_"},
+            {"type": "add_condition", "conditions": {"idx": idn[2]}}],
+            "postprocessing": [{"type": "template", "template": "{{ query }} | applied {{ pipeline.applied_ids | sort | join(',') }}"}]})
+        return list(TextQueryTestBackend(pipe).convert(SigmaCollection.from_dicts([rule])))
+    if k == "converr":
+        pipe = ProcessingPipeline.from_dict({"name": "p", "priority": 1, "transformations": [
+            {"id": idn[0], "type": "field_name_suffix", "suffix": "_a"}, {"id": idn[1], "type": "field_name_suffix", "suffix": "_b"},
+            {"id": idn[2], "type": "field_name_suffix", "suffix": "_c"}]})
+        corr = {"title": "c", "correlation": {"type": "value_percentile", "rules": ["r"], "group-by": ["g"], "timespan": "5m",
+                                              "condition": {"gte": 2, "field": "f"}}}
+        b = TextQueryTestBackend(pipe, collect_errors=True)
+        out = list(b.convert(SigmaCollection.from_dicts([dict(rule, name="r"), corr])))
+        return out + [text(e) for _, e in b.errors]
+    if k == "reflagerr":
+        from sigma.rule import SigmaRule
+
+        try:
+            SigmaRule.from_dict(dict(rule, detection={"sel": {"f|re|i|m|s|base64": "foo"}, "condition": "sel"}))
+            return ["no error"]
+        except SigmaError as e:
+            return [text(e)]
+    if k == "dangling3":
+        from sigma.rule import SigmaRule
+        from sigma.validators.core.condition import DanglingConditionValidator
+
+        r = SigmaRule.from_dict(dict(rule, detection={"sel": {"f": 1}, "condition": "sel and 1 of %s* and 1 of %s* and 1 of %s*" % tuple(idn)}))
+        v = DanglingConditionValidator()
+        return [type(i).__name__ + ":" + str(getattr(i, "condition_name", "")) for i in list(v.validate(r)) + list(v.finalize())]
+    if k == "attrerr":
+        pipe = ProcessingPipeline.from_dict({"name": "p", "priority": 1, "transformations": [
+            {"id": idn[0], "type": "add_condition", "conditions": {"idx": "main"}},
+            {"id": idn[1], "type": "field_name_suffix", "suffix": "_b"},
+            {"id": idn[2], "type": "field_name_suffix", "suffix": "_c",
+             "rule_conditions": [{"type": "rule_attribute", "attribute": "date", "value": "notadate", "op": "gte"}]}]})
+        b = TextQueryTestBackend(pipe, collect_errors=True)
+        out = list(b.convert(SigmaCollection.from_dicts([dict(rule, date="2024-01-01")])))
+        return out + [text(e) for _, e in b.errors]
+    if k == "unknownvals":
+        from sigma.validation import SigmaValidator
+
+        try:
+            SigmaValidator.from_dict({"validators": ["no_" + n for n in idn]}, {})
+            return ["no error"]
+        except SigmaError as e:
+            return [text(e)]
+    if k == "tracking":
+        from sigma.processing.tracking import FieldMappingTracking
+
+        t = FieldMappingTracking()
+        for n in idn:
+            t.add_mapping(n, "x")
+        t.add_mapping("x", "y")
+        t.add_mapping("y", "z")
+        return [n + "->" + ",".join(sorted(t[n])) for n in sorted(idn)]
+    if k == "underq":
+        pipe = ProcessingPipeline.from_dict({"name": "p", "priority": 1, "transformations": [{"type": "add_condition", "conditions": {"idx": "main"}}]})
+        det = {"_q1": {"f": "foo"}, "_q2": {"g": "bar"}, "condition": "1 of _*q*"}
+        return list(TextQueryTestBackend(pipe).convert(SigmaCollection.from_dicts([dict(rule, detection=det)])))
     raise ValueError(k)
 
 
